@@ -14,7 +14,7 @@ BOUND = {'quick': {'rhh': 5, 'bloom': 4, 'radix': 4, 'idset': 3}, 'thorough': {'
 def run(ctx):
     tier = ctx.tier
     quick = tier == 'quick'
-    g = ctx.tlc_must_pass('Containers', f'Containers.Gen_{tier}.cfg', timeout=1500, dump=True, coverage=True, workers=8)
+    g = ctx.tlc_must_pass('Containers', f'Containers.Gen_{tier}.cfg', timeout=1500, dump=True, coverage=True)
     ctx.check_coverage(g, ACTIONS)
     per_kind = {}
     for st in ctx.dump_states(g):
@@ -23,7 +23,7 @@ def run(ctx):
             per_kind.setdefault(k, []).append(st['hist'])
     if set(per_kind) != set(BOUND[tier]):
         raise vlib.Inconclusive(f'missing kinds in dump: {sorted(per_kind)}')
-    sim = ctx.tlc('Containers', 'Containers.Sim.cfg', timeout=900, simulate={'num': 800 if quick else 12000}, depth=9, workers=4)
+    sim = ctx.tlc('Containers', 'Containers.Sim.cfg', timeout=900, simulate={'num': 800 if quick else 12000}, depth=9)
     if sim.timed_out or not sim.ok:
         raise vlib.Inconclusive('simulation run failed: ' + sim.stdout[-1500:])
     seen = set()
@@ -53,7 +53,7 @@ def run(ctx):
                 cases.append({'kind': kind, 'steps': steps, 'conc': ctx.rng.randrange(240)})
     ctx.exhaustive = exhaustive
     binary = ctx.go_build('containers')
-    res, lines = ctx.replay(binary, cases, timeout=2400, procs=min(vlib.NCPU, 8), env_extra={'GOMAXPROCS': '2'})
+    res, lines = ctx.replay(binary, cases, timeout=2400, procs=vlib.NCPU, env_extra={'GOMAXPROCS': '2'})
     ctx.absorb(res, lines)
     fp = sum(int((r.get('extra') or {}).get('false_positives', 0)) for r in res)
     aq = sum(int((r.get('extra') or {}).get('absent_queries', 0)) for r in res)
